@@ -545,6 +545,9 @@ type vfC13Stream struct {
 	proto protocol.ID
 }
 
+func (s *vfC13Stream) Read(p []byte) (int, error)                { return s.vfC13End.Read(p) }
+func (s *vfC13Stream) Write(p []byte) (int, error)               { return s.vfC13End.Write(p) }
+func (s *vfC13Stream) Close() error                              { return s.vfC13End.Close() }
 func (s *vfC13Stream) CloseWrite() error                         { return s.vfC13End.Close() }
 func (s *vfC13Stream) CloseRead() error                          { return nil }
 func (s *vfC13Stream) Reset() error                              { s.reset(); return nil }
@@ -1322,7 +1325,10 @@ func (s *vfC13Sys) view(p peer.ID) vfC13PeerView {
 		v.TTL = append(v.TTL, k)
 	}
 	sort.Strings(v.TTL)
-	pr, _ := s.ps.GetProtocols(p)
+	var pr []protocol.ID
+	if p != "" { // the memory protocol book indexes by the last byte of the ID
+		pr, _ = s.ps.GetProtocols(p)
+	}
 	for _, x := range pr {
 		v.NProtos++
 		tok, ok := s.tok.ofProto[string(x)]
